@@ -247,7 +247,8 @@ func runAtomicWrite(c *Ctx, r *Reporter) {
 		// success return only after Rename succeeded
 		okRet := true
 		for _, ret := range returnsOf(writer) {
-			if isSuccessReturn(ret) && !nilErrGuards(rename, ret) {
+			passes := len(ret.Results) > 0 && ret.Results[len(ret.Results)-1] == errResultOf(rename) && instrDominates(rename, ret)
+			if isSuccessReturn(ret) && !nilErrGuards(rename, ret) && !passes { // `return os.Rename(…)` succeeds exactly when the rename does
 				okRet = false
 			}
 		}
@@ -269,13 +270,50 @@ func runAtomicWrite(c *Ctx, r *Reporter) {
 		r.Check(okMode, wq+"#W4:permission-bits", wpos, "the temp file receives the target's permission bits (Stat → Chmod) before the rename", "the temp file created by os.CreateTemp has mode 0600; without a Chmod to the target's Stat().Mode().Perm() before the rename, `evy fmt -w` silently changes the file's permissions")
 	}
 callers:
-	// W5: callers
+	// W5: callers. A function that only hands its own parameters on to the writer (a wrapper that adds the file name
+	// to the error, say) stands for the writer: its call sites are the write sites.
+	dataArg := map[*ssa.Function]int{writer: 0}
+	for changed := true; changed; {
+		changed = false
+		for _, fn := range fns {
+			if _, known := dataArg[fn]; known {
+				continue
+			}
+			for _, b := range fn.Blocks {
+				for _, ins := range b.Instrs {
+					call, ok := ins.(*ssa.Call)
+					if !ok {
+						continue
+					}
+					di, isWriter := dataArg[call.Call.StaticCallee()]
+					if !isWriter || di >= len(call.Call.Args) {
+						continue
+					}
+					if prm, ok := call.Call.Args[di].(*ssa.Parameter); ok && prm.Parent() == fn {
+						for pi, fp := range fn.Params {
+							if fp == prm {
+								dataArg[fn] = pi
+								changed = true
+							}
+						}
+					}
+				}
+			}
+		}
+	}
 	k := 0
 	for _, fn := range fns {
+		if _, isWrapper := dataArg[fn]; isWrapper {
+			continue
+		}
 		for _, b := range fn.Blocks {
 			for _, ins := range b.Instrs {
 				call, ok := ins.(*ssa.Call)
-				if !ok || call.Call.StaticCallee() != writer {
+				if !ok {
+					continue
+				}
+				dataIdx, isWriter := dataArg[call.Call.StaticCallee()]
+				if !isWriter || dataIdx >= len(call.Call.Args) {
 					continue
 				}
 				k++
@@ -351,12 +389,12 @@ callers:
 				if okW {
 					derives := false
 					for _, fc := range fmtCalls {
-						if _, isHelper := viaHelper[fc]; (valueReaches(call.Call.Args[0], fc, 8) || dataViaArchive(call.Call.Args[0], fc, fn)) && (!isHelper || helperOutput[fc]) {
+						if _, isHelper := viaHelper[fc]; (valueReaches(call.Call.Args[dataIdx], fc, 8) || dataViaArchive(call.Call.Args[dataIdx], fc, fn)) && (!isHelper || helperOutput[fc]) {
 							derives = true
 						}
 						// the helper formatted the members of the archive it was handed, and that archive is written
 						if inner := viaHelper[fc]; inner != nil {
-							if dc, ok := call.Call.Args[0].(*ssa.Call); ok && dc.Call.StaticCallee() != nil && dc.Call.StaticCallee().Name() == "Format" && len(dc.Call.Args) == 1 {
+							if dc, ok := call.Call.Args[dataIdx].(*ssa.Call); ok && dc.Call.StaticCallee() != nil && dc.Call.StaticCallee().Name() == "Format" && len(dc.Call.Args) == 1 {
 								handed := false
 								for _, a := range fc.Call.Args {
 									if a == dc.Call.Args[0] {
